@@ -20,7 +20,7 @@ pub fn meta(tier: Tier) -> Meta {
     Meta {
         rule: format!(
             "Expression trees over the public constructors Radix4::new / new_with_base, Radix3::new / new_with_base, MixedRadix, MixedRadixSmall, GoodThomasAlgorithm, GoodThomasAlgorithmSmall, RadersAlgorithm, BluesteinsAlgorithm, Dft, Butterfly1..32 and planner-produced inner transforms. Trees are CONSTRUCTED to satisfy each constructor's documented/asserted preconditions (equal directions, coprime lengths, len+1 prime, inner >= 2*len-1, small-scratch inners for the *Small variants), and those preconditions are re-checked on the actually built children before a constructor panic is counted as a violation. \
-             Bounded-exhaustive: every tree of depth <= 1 over leaves Butterfly(n)/Dft(n), n in 1..=32, with composite length <= {c1}; every depth-2 tree (a depth-1 tree of length <= 64 combined with a leaf through every binary constructor in both orders, or wrapped by every unary constructor) with composite length <= {c2}. Random: {cases} proptest-drawn (length, seed) pairs expanded by a length-directed generator into trees of depth <= 4 and length <= {rmax} (Rader inside Bluestein inside mixed radix, planner-produced leaves up to 64, ...). \
+             Bounded-exhaustive: every tree of depth <= 1 over leaves Butterfly(n)/Dft(n), n in 1..=32, with composite length <= {c1}; every depth-2 tree (a depth-1 tree of length <= 64 combined with a leaf through every binary constructor in both orders, or wrapped by every unary constructor) with composite length <= {c2}. Random: {cases} proptest-drawn (length, seed) pairs expanded by a length-directed generator into trees of depth <= 4 and length <= {rmax} (Rader inside Bluestein inside mixed radix, planner-produced leaves up to 64, ...). Planner-produced inners: Rader (whenever m+1 is prime) and one rotating other constructor (Bluestein, Radix4/Radix3 with base, MixedRadix) over the transform each concrete planner returns for EVERY m in 2..=600 (quick) / 2000 (thorough), guard-paged on all entry points with exactly the advertised scratch plus numeric checks. Large composites: a constructed list of ~150 (quick) / ~250 (thorough) trees with composite length 30 000..300 000 (thorough: 1 200 000) covering every constructor kind (Radix4/Radix3 chains with and without base, all four binary constructors in both orders over a large and a small child, Rader and Bluestein over large inner transforms), judged numerically on all entry points plus a guard-paged and a NaN-scratch call. \
              Oracles per tree (f32 and f64, both directions): construction does not panic; C01 numeric check against the reference DFT on all 4 entry points; exact DFT in GF(p^2) for the generic build of the same tree; guard-paged calls with exactly the advertised scratch, 2 chunks, both guard orientations (C03); chunk isolation with NaN filler, 3 chunks (C07); NaN-filled scratch/output, exact and +1 scratch length, bitwise (C08); a rotating part of the call-shape matrix (C09). The same trees also run on the build with debug assertions. \
              Non-trivial: per the call-level check applied (n >= 2 and its own rule); distinct = (tree, check, type, direction, entry, parameters). The histogram reports tree depth and root constructor.",
         ),
@@ -252,6 +252,70 @@ fn leaf_for(len: usize, st: &mut Stream, for_field: bool) -> Tree {
     }
 }
 
+/// Large composites (beyond the enumerated and the random range): every constructor kind once or more with a composite length
+/// between ~30 000 and ~300 000 (thorough: ~1 200 000) -- index widths (u16/u32), cache-blocking thresholds, layer counts and
+/// table sizes only change up there. Construction inside the documented preconditions is re-checked on the built children.
+pub fn large_trees(thorough: bool) -> Vec<Tree> {
+    let mut v = vec![];
+    let b = |t: Tree| Box::new(t);
+    for k in 14..=if thorough { 20 } else { 18 } {
+        v.push(Tree::Radix4(1 << k));
+    }
+    for e in 9..=if thorough { 12 } else { 11 } {
+        v.push(Tree::Radix3(3usize.pow(e)));
+    }
+    let cap = if thorough { 1_200_000 } else { 300_000 };
+    let leaves = [Tree::Butterfly(5), Tree::Butterfly(7), Tree::Butterfly(3), Tree::Dft(6), Tree::Butterfly(31), Tree::Planned(Planner::Scalar, 35), Tree::Butterfly(16), Tree::Dft(1), Tree::Butterfly(2)];
+    for leaf in &leaves {
+        let l = tree_len(leaf);
+        for k in 5..=10u32 {
+            let n = l << (2 * k);
+            if n >= 30_000 && n <= cap {
+                v.push(Tree::Radix4Base(k, b(leaf.clone())));
+            }
+        }
+        for k in 6..=13u32 {
+            let n = l * 3usize.pow(k);
+            if n >= 30_000 && n <= cap {
+                v.push(Tree::Radix3Base(k, b(leaf.clone())));
+            }
+        }
+    }
+    let bigs = [Tree::Radix4(256), Tree::Radix4(1024), Tree::Radix4(4096), Tree::Radix3(243), Tree::Radix3(729), Tree::Radix3(2187), Tree::Planned(Planner::Scalar, 1000), Tree::Radix4(16384)];
+    let smalls = [Tree::Dft(65), Tree::Butterfly(31), Tree::Butterfly(17), Tree::Dft(257), Tree::Butterfly(32), Tree::Butterfly(27), Tree::Dft(35), Tree::Butterfly(7)];
+    for a in &bigs {
+        for s in &smalls {
+            let (la, ls) = (tree_len(a), tree_len(s));
+            let n = la * ls;
+            if n < 30_000 || n > cap {
+                continue;
+            }
+            for (x, y) in [(a, s), (s, a)] {
+                v.push(Tree::MixedRadix(b(x.clone()), b(y.clone())));
+                v.push(Tree::MixedRadixSmall(b(x.clone()), b(y.clone())));
+                if gcd(la as u64, ls as u64) == 1 {
+                    v.push(Tree::GoodThomas(b(x.clone()), b(y.clone())));
+                    v.push(Tree::GoodThomasSmall(b(x.clone()), b(y.clone())));
+                }
+            }
+        }
+    }
+    // Rader / Bluestein over large inner transforms
+    v.push(Tree::Raders(b(Tree::Radix4(65536))));
+    v.push(Tree::Raders(b(Tree::Planned(Planner::Scalar, 40960))));
+    v.push(Tree::Raders(b(Tree::Radix3Base(2, b(Tree::Radix4(8192)))))); // 73728 + 1 = 73729 is prime
+    v.push(Tree::Bluesteins(40009, b(Tree::Radix4(131072))));
+    v.push(Tree::Bluesteins(65536, b(Tree::Radix4(131072))));
+    v.push(Tree::Bluesteins(65537, b(Tree::Radix4(262144))));
+    v.push(Tree::Bluesteins(32769, b(Tree::Radix4(65537usize.next_power_of_two()))));
+    v.push(Tree::Bluesteins(30011, b(Tree::Radix3Base(1, b(Tree::Radix4(32768))))));
+    v.retain(|t| match t {
+        Tree::Raders(inner) => is_prime(tree_len(inner) as u64 + 1),
+        _ => true,
+    });
+    v
+}
+
 /// the battery of call-level checks applied to one tree
 fn battery(ctx: &mut Ctx, t: &Tree, idx: usize, is_chk: bool) {
     let n = tree_len(t);
@@ -321,6 +385,73 @@ pub fn worker(ctx: &mut Ctx) {
         battery(ctx, t, idx, is_chk);
         if ctx.done() {
             return;
+        }
+    }
+    // constructors over PLANNER-PRODUCED inner transforms of every length up to 600 (quick) / 2000 (thorough): the planners
+    // return inners with all kinds of scratch needs (Bluestein bases, cached splices) that hand-written leaves never have
+    {
+        let top = ctx.tier.pick(600usize, 2000);
+        let mut idx = 0usize;
+        for m in 2..=top {
+            for (pi, planner) in [Planner::Scalar, Planner::Avx, Planner::Sse].iter().enumerate() {
+                idx += 1;
+                if !ctx.mine() {
+                    continue;
+                }
+                if is_chk && (m + pi) % 4 != 0 {
+                    continue;
+                }
+                let inner = Tree::Planned(*planner, m);
+                let mut trees: Vec<Tree> = vec![];
+                if is_prime(m as u64 + 1) {
+                    trees.push(Tree::Raders(Box::new(inner.clone())));
+                }
+                // one of the other wrappers, rotating
+                match (m + pi) % 4 {
+                    0 => trees.push(Tree::Bluesteins((m + 1) / 2, Box::new(inner.clone()))),
+                    1 => trees.push(Tree::Radix4Base(1, Box::new(inner.clone()))),
+                    2 => trees.push(Tree::Radix3Base(1, Box::new(inner.clone()))),
+                    _ => trees.push(Tree::MixedRadix(Box::new(Tree::Butterfly([2usize, 3, 5, 7][m % 4])), Box::new(inner.clone()))),
+                }
+                for t in trees {
+                    let n = tree_len(&t);
+                    let src = Source::Tree(t.clone());
+                    let ty = TYS[(m + pi) % 2];
+                    let dir = DIRS[(m / 2) % 2];
+                    for (ei, entry) in ENTRIES.iter().enumerate() {
+                        ctx.exec(&Case::new("C12", "guard", Planner::Scalar, ty, dir, n).with_source(src.clone()).with_entry(*entry).with_chunks(1 + (m + ei) % 2).with_input(InputSpec::fam("uniform", 3)).with_p(vec![((m + ei) % 4) as i64, 1]));
+                    }
+                    let e = ENTRIES[(m + pi) % 4];
+                    ctx.exec(&Case::new("C12", "numeric", Planner::Scalar, ty, dir, n).with_source(src.clone()).with_entry(e).with_input(InputSpec::fam("uniform", idx as u64)));
+                    ctx.exec(&Case::new("C12", "numeric", Planner::Scalar, ty, dir, n).with_source(src).with_entry(Entry::Immutable).with_input(InputSpec::fam("gaussish", idx as u64)));
+                }
+            }
+            if ctx.done() {
+                return;
+            }
+        }
+    }
+    // large composites: numeric (f32, and f64 up to 2^16) on every entry point + one guard-paged call
+    if !is_chk {
+        for (idx, t) in large_trees(ctx.tier == Tier::Thorough).iter().enumerate() {
+            if !ctx.mine() {
+                continue;
+            }
+            let n = tree_len(t);
+            let src = Source::Tree(t.clone());
+            ctx.label(&format!("large tree root:{}", tree_name(t)));
+            for (ei, entry) in ENTRIES.iter().enumerate() {
+                let dir = DIRS[(idx + ei) % 2];
+                ctx.exec(&Case::new("C12", "numeric", Planner::Scalar, Ty::F32, dir, n).with_source(src.clone()).with_entry(*entry).with_input(InputSpec::fam("uniform", idx as u64 + 11)));
+                if n <= 1 << 16 && ei % 2 == 0 {
+                    ctx.exec(&Case::new("C12", "numeric", Planner::Scalar, Ty::F64, dir, n).with_source(src.clone()).with_entry(*entry).with_input(InputSpec::fam("gaussish", idx as u64 + 13)));
+                }
+            }
+            ctx.exec(&Case::new("C12", "guard", Planner::Scalar, TYS[idx % 2], DIRS[idx % 2], n).with_source(src.clone()).with_entry(ENTRIES[idx % 4]).with_input(InputSpec::fam("uniform", 3)).with_p(vec![(idx % 4) as i64, 0]));
+            ctx.exec(&Case::new("C12", "scratch", Planner::Scalar, TYS[(idx + 1) % 2], DIRS[idx % 2], n).with_source(src).with_entry(EXPLICIT_ENTRIES[idx % 3]).with_input(InputSpec::fam("uniform", 7)).with_p(vec![(idx % 2) as i64, 1, 1]));
+            if ctx.done() {
+                return;
+            }
         }
     }
     // random deeper trees: one case per tree and check kind, drawn by proptest
